@@ -1,8 +1,7 @@
-(** copy_within with destination corners of ANY magnitude, wrapping sums included
-    (overflow checks off): a non-empty source rectangle whose destination does not fit is
-    always rejected with a panic - possibly after some rows were copied - and nothing
-    outside the receiver moves.  Closes the gap left by [op_copy_within_reject], whose
-    hypotheses exclude sums of 2^64 and more. *)
+(** copy_within with destination corners of ANY magnitude (the binary-number path of the
+    model): rectangles that do not fit are rejected before anything is written, in both
+    build modes; the row loop never touches a cell outside the receiver; and the path
+    agrees with the plain one wherever that one returns. *)
 From TD Require Import Base.Prelude Model.Iter Model.View Model.Ops
   Proofs.ViewGeom Proofs.Frame Proofs.Access Proofs.OpsProofs Proofs.CopyProofs.
 
@@ -160,94 +159,42 @@ Qed.
 Lemma Forall_seq_lt s n (P : nat -> Prop) : (forall r, s <= r < s + n -> P r) -> Forall P (seq s n).
 Proof. intros H. apply Forall_forall. intros r Hr. apply in_seq in Hr. apply H. exact Hr. Qed.
 
-(** * the theorem: every magnitude of destination corner, with and without overflow checks *)
+(** * the theorem: every magnitude of destination corner, with and without overflow checks.
+    Since the D14 repair (checked sums in the two destination assertions) every call whose
+    rectangles do not fit - empty source or not - is rejected before the first row is
+    touched, in both build modes *)
 Theorem op_copy_within_w_rejects oc b (x0 y0 x1 y1 dx dy : N) :
-  fits v b ->
-  (x0 < x1)%N -> (y0 < y1)%N -> (x1 <= N.of_nat (vcols v))%N -> (y1 <= N.of_nat (vrows v))%N ->
-  (N.of_nat (vcols v) < W)%N -> (N.of_nat (vrows v) < W)%N -> (dx < W)%N -> (dy < W)%N ->
-  ~ ((dx + (x1 - x0) <= N.of_nat (vcols v))%N /\ (dy + (y1 - y0) <= N.of_nat (vrows v))%N) ->
-  exists b', op_copy_within_w oc v b x0 y0 x1 y1 dx dy = Ok (true, b') /\ frame_ok v b b'.
+  ~ ((x0 <= x1)%N /\ (y0 <= y1)%N /\ (x1 <= N.of_nat (vcols v))%N /\ (y1 <= N.of_nat (vrows v))%N /\
+     (dx + (x1 - x0) <= N.of_nat (vcols v))%N /\ (dy + (y1 - y0) <= N.of_nat (vrows v))%N) ->
+  op_copy_within_w oc v b x0 y0 x1 y1 dx dy = Ok (true, b).
 Proof.
-  intros Hb Hx Hy Hx1 Hy1 Hcw Hrw Hdx Hdy Hnofit.
-  unfold op_copy_within_w, assert.
-  destruct (N.leb_spec x0 x1); [|lia]. destruct (N.leb_spec y0 y1); [|lia].
-  destruct (N.leb_spec x1 (N.of_nat (vcols v))); [|lia]. destruct (N.leb_spec y1 (N.of_nat (vrows v))); [|lia].
-  cbn [bind].
-  assert (Hdone : exists b', Ok (true, b) = Ok (true, b') /\ frame_ok v b b')
-    by (exists b; split; [reflexivity|apply frame_refl]).
-  (* the column sum *)
-  unfold uadd at 1.
-  destruct (N.ltb_spec (dx + (x1 - x0)) W) as [Hc|Hc]; cbn [bind].
-  2: destruct oc; cbn [bind]; [exact Hdone|].
-  all: match goal with |- context [bind (if (?e <=? ?n)%N then _ else _) _] =>
-         destruct (N.leb_spec e n) as [He0|He0]; cbn [bind]; [|exact Hdone] end.
-  all: unfold uadd at 1.
-  all: destruct (N.ltb_spec (dy + (y1 - y0)) W) as [Hr|Hr]; cbn [bind].
-  all: try (destruct oc; cbn [bind]; [exact Hdone|]).
-  all: match goal with |- context [bind (if (?e <=? ?n)%N then _ else _) _] =>
-         destruct (N.leb_spec e n) as [He1|He1]; cbn [bind]; [|exact Hdone] end.
-  - (* neither sum wrapped and both passed: the destination fits *)
-    exfalso. apply Hnofit. split; assumption.
-  - (* the row sum wrapped *)
-    assert (Hmod : ((dy + (y1 - y0)) mod W = dy + (y1 - y0) - W)%N) by (apply mod_wrap; lia).
-    destruct (N.ltb_spec y0 dy) as [Hlt|Hge].
-    + (* downwards: the row r* = max(y0, vrows - off) asks for a row at or beyond vrows *)
-      set (off_ := (dy - y0)%N).
-      set (rstar := Nat.max (N.to_nat y0) (vrows v - N.to_nat off_)).
-      destruct (steps_w_panics v (cw_step_w false v true off_ (N.to_nat x0) (N.to_nat x1) dx (dx + (x1 - x0))%N)
-                  (rev (seq (N.to_nat y0) (N.to_nat (y1 - y0)))) b Hb) as [b' [E F]].
-      * apply Forall_rev. apply Forall_seq_lt. intros r Hrr. apply cw_step_class; lia.
-      * apply Exists_exists. exists rstar. split.
-        -- apply -> in_rev. apply in_seq. unfold rstar, off_. lia.
-        -- intros b0 _. apply cw_step_panics_row; unfold rstar, off_; lia.
-      * exists b'. split; [unfold copy_within_rows_w, copy_within_same_w; rewrite E; reflexivity|exact F].
-    + exfalso. lia.
-  - (* the column sum wrapped: the destination range is "negative" *)
-    assert (Hmod : ((dx + (x1 - x0)) mod W = dx + (x1 - x0) - W)%N) by (apply mod_wrap; lia).
-    rewrite Hmod in *.
-    destruct (N.ltb_spec y0 dy); [|destruct (N.ltb_spec dy y0)].
-    + destruct (steps_w_panics v (cw_step_w false v true (dy - y0)%N (N.to_nat x0) (N.to_nat x1) dx (dx + (x1 - x0) - W)%N)
-                  (rev (seq (N.to_nat y0) (N.to_nat (y1 - y0)))) b Hb) as [b' [E F]].
-      * apply Forall_rev. apply Forall_seq_lt. intros r Hrr. apply cw_step_class; lia.
-      * apply Exists_exists. exists (N.to_nat y0). split.
-        -- apply -> in_rev. apply in_seq. lia.
-        -- intros b0 _. apply cw_step_panics_cols; lia.
-      * exists b'. split; [unfold copy_within_rows_w, copy_within_same_w; rewrite E; reflexivity|exact F].
-    + destruct (steps_w_panics v (cw_step_w false v false (y0 - dy)%N (N.to_nat x0) (N.to_nat x1) dx (dx + (x1 - x0) - W)%N)
-                  (seq (N.to_nat y0) (N.to_nat (y1 - y0))) b Hb) as [b' [E F]].
-      * apply Forall_seq_lt. intros r Hrr. apply cw_step_class; lia.
-      * apply Exists_exists. exists (N.to_nat y0). split; [apply in_seq; lia|].
-        intros b0 _. apply cw_step_panics_cols; lia.
-      * exists b'. split; [unfold copy_within_rows_w, copy_within_same_w; rewrite E; reflexivity|exact F].
-    + destruct (steps_w_panics v (cw_same_step_w v (N.to_nat x0) (N.to_nat x1) dx)
-                  (seq (N.to_nat y0) (N.to_nat (y1 - y0))) b Hb) as [b' [E F]].
-      * apply Forall_seq_lt. intros r Hrr. apply cw_same_step_class; lia.
-      * apply Exists_exists. exists (N.to_nat y0). split; [apply in_seq; lia|].
-        intros b0 _. apply cw_same_step_panics; lia.
-      * exists b'. split; [unfold copy_within_rows_w, copy_within_same_w; rewrite E; reflexivity|exact F].
-  - (* both sums wrapped: as the previous case *)
-    assert (Hmod : ((dx + (x1 - x0)) mod W = dx + (x1 - x0) - W)%N) by (apply mod_wrap; lia).
-    rewrite Hmod in *.
-    destruct (N.ltb_spec y0 dy); [|destruct (N.ltb_spec dy y0)].
-    + destruct (steps_w_panics v (cw_step_w false v true (dy - y0)%N (N.to_nat x0) (N.to_nat x1) dx (dx + (x1 - x0) - W)%N)
-                  (rev (seq (N.to_nat y0) (N.to_nat (y1 - y0)))) b Hb) as [b' [E F]].
-      * apply Forall_rev. apply Forall_seq_lt. intros r Hrr. apply cw_step_class; lia.
-      * apply Exists_exists. exists (N.to_nat y0). split.
-        -- apply -> in_rev. apply in_seq. lia.
-        -- intros b0 _. apply cw_step_panics_cols; lia.
-      * exists b'. split; [unfold copy_within_rows_w, copy_within_same_w; rewrite E; reflexivity|exact F].
-    + destruct (steps_w_panics v (cw_step_w false v false (y0 - dy)%N (N.to_nat x0) (N.to_nat x1) dx (dx + (x1 - x0) - W)%N)
-                  (seq (N.to_nat y0) (N.to_nat (y1 - y0))) b Hb) as [b' [E F]].
-      * apply Forall_seq_lt. intros r Hrr. apply cw_step_class; lia.
-      * apply Exists_exists. exists (N.to_nat y0). split; [apply in_seq; lia|].
-        intros b0 _. apply cw_step_panics_cols; lia.
-      * exists b'. split; [unfold copy_within_rows_w, copy_within_same_w; rewrite E; reflexivity|exact F].
-    + destruct (steps_w_panics v (cw_same_step_w v (N.to_nat x0) (N.to_nat x1) dx)
-                  (seq (N.to_nat y0) (N.to_nat (y1 - y0))) b Hb) as [b' [E F]].
-      * apply Forall_seq_lt. intros r Hrr. apply cw_same_step_class; lia.
-      * apply Exists_exists. exists (N.to_nat y0). split; [apply in_seq; lia|].
-        intros b0 _. apply cw_same_step_panics; lia.
-      * exists b'. split; [unfold copy_within_rows_w, copy_within_same_w; rewrite E; reflexivity|exact F].
+  intros H. unfold op_copy_within_w, assert.
+  destruct (N.leb_spec x0 x1); cbn [bind]; [|reflexivity].
+  destruct (N.leb_spec y0 y1); cbn [bind]; [|reflexivity].
+  destruct (N.leb_spec x1 (N.of_nat (vcols v))); cbn [bind]; [|reflexivity].
+  destruct (N.leb_spec y1 (N.of_nat (vrows v))); cbn [bind]; [|reflexivity].
+  unfold cadd. destruct (N.ltb_spec (dx + (x1 - x0)) W); cbn [bind]; [|reflexivity].
+  destruct (N.leb_spec (dx + (x1 - x0)) (N.of_nat (vcols v))); cbn [bind]; [|reflexivity].
+  destruct (N.ltb_spec (dy + (y1 - y0)) W); cbn [bind]; [|reflexivity].
+  destruct (N.leb_spec (dy + (y1 - y0)) (N.of_nat (vrows v))); cbn [bind]; [|reflexivity].
+  exfalso. apply H. repeat split; assumption.
+Qed.
+
+(** when the rectangles fit, every step of the row loop is well-behaved (no step of the
+    loop can fail in a way that would touch a cell outside the receiver) *)
+Lemma rows_w_frame oc down off_ sx0 sx1 dx e0 rs b :
+  fits v b -> Forall (fun r => r < vrows v) rs -> sx0 <= sx1 -> sx1 <= vcols v ->
+  exists p b', copy_within_rows_w oc v rs down off_ sx0 sx1 dx e0 b = Ok (p, b') /\ frame_ok v b b'.
+Proof.
+  intros Hb Hall Hle Hs. unfold copy_within_rows_w. revert b Hb.
+  induction rs as [|r tl IH]; intros b Hb; cbn [steps_w].
+  - exists false, b. split; [reflexivity|apply frame_refl].
+  - inversion Hall as [|? ? Hr Hall']; subst.
+    destruct (cw_step_class oc down off_ sx0 sx1 dx e0 r Hr Hle Hs b Hb) as [E|[b1 [E F1]]]; rewrite E.
+    + exists true, b. split; [reflexivity|apply frame_refl].
+    + assert (Hb1 : fits v b1) by (destruct F1 as [L _]; unfold fits in *; lia).
+      destruct (IH Hall' b1 Hb1) as [p [b' [E' F']]]. exists p, b'. split; [exact E'|].
+      eapply frame_trans; eassumption.
 Qed.
 
 End Wide.
@@ -312,18 +259,18 @@ Proof.
 Qed.
 
 Theorem op_copy_within_w_agrees oc v b b' (x0 y0 x1 y1 dx dy : N) :
-  (N.of_nat (vrows v) < W)%N -> (dx + (x1 - x0) < W)%N -> (dy + (y1 - y0) < W)%N ->
+  (N.of_nat (vrows v) < W)%N ->
   op_copy_within oc v b x0 y0 x1 y1 dx dy = Ok b' ->
   op_copy_within_w oc v b x0 y0 x1 y1 dx dy = Ok (false, b').
 Proof.
-  intros Hrw Hc Hr. unfold op_copy_within, op_copy_within_w, assert.
+  intros Hrw. unfold op_copy_within, op_copy_within_w, assert.
   destruct (N.leb_spec x0 x1); cbn [bind]; [|discriminate].
   destruct (N.leb_spec y0 y1); cbn [bind]; [|discriminate].
   destruct (N.leb_spec x1 (N.of_nat (vcols v))); cbn [bind]; [|discriminate].
   destruct (N.leb_spec y1 (N.of_nat (vrows v))); cbn [bind]; [|discriminate].
-  unfold uadd. destruct (N.ltb_spec (dx + (x1 - x0)) W); [|lia]. cbn [bind].
+  unfold cadd. destruct (N.ltb_spec (dx + (x1 - x0)) W); cbn [bind]; [|discriminate].
   destruct (N.leb_spec (dx + (x1 - x0)) (N.of_nat (vcols v))); cbn [bind]; [|discriminate].
-  destruct (N.ltb_spec (dy + (y1 - y0)) W); [|lia]. cbn [bind].
+  destruct (N.ltb_spec (dy + (y1 - y0)) W); cbn [bind]; [|discriminate].
   destruct (N.leb_spec (dy + (y1 - y0)) (N.of_nat (vrows v))); cbn [bind]; [|discriminate].
   destruct (N.ltb_spec y0 dy); [|destruct (N.ltb_spec dy y0)].
   - destruct (seq (N.to_nat y0) (N.to_nat (y1 - y0))) as [|r0 rs0] eqn:Eseq.
